@@ -409,6 +409,9 @@ class FsRun:
         elif k == "moveout":
             Y()
             os.rename(r(op[1]), r("out/" + op[2]))
+        elif k == "moveback":
+            Y()
+            os.rename(r(op[1]), r(op[2]))
         elif k == "movein_file":
             src = r("out/" + op[1])
             with open(src, "w"):
